@@ -48,10 +48,12 @@ def mc_cfg(n, ver, gen, st, msgs, ts, window=True, conv="ConvergedAfterAllPairsM
         ("PROPERTIES %s\n" % PROPS if props else "") + "CHECK_DEADLOCK FALSE\n"
 
 
-def gen_cfg(n, ver, gen, st, msgs, ts, depth, atomic, once=False):
+def gen_cfg(n, ver, gen, st, msgs, ts, depth, atomic, once=False, sends=0, nodrop=False, changes=99):
     return "SPECIFICATION GSpec\n" + consts(n, ver, gen, st, msgs, ts) + \
-        "  Depth = %d\n  Atomic = %s\n  Once = %s\nINVARIANTS Emit\nCHECK_DEADLOCK FALSE\n" % (
-            depth, "TRUE" if atomic else "FALSE", "TRUE" if once else "FALSE")
+        "  Depth = %d\n  Atomic = %s\n  Once = %s\n  MaxSends = %d\n  NoDrop = %s\n  MaxChanges = %d\n" \
+        "INVARIANTS Emit\nCHECK_DEADLOCK FALSE\n" % (
+            depth, "TRUE" if atomic else "FALSE", "TRUE" if once else "FALSE", sends,
+            "TRUE" if nodrop else "FALSE", changes)
 
 
 def write_hists(res, path, keep=None, seed=1):
@@ -319,6 +321,15 @@ def run(ctx):
         gen_and_replay(ctx, acc, "msg_n3_d5", gen_cfg(3, 1, 1, 1, 2, ("skew",), 6, False))
         gen_and_replay(ctx, acc, "msg_n3_d5_hub", gen_cfg(3, 1, 0, 0, 2, ("hub",), 6, False))
         gen_and_replay(ctx, acc, "msg_n2_d8", gen_cfg(2, 1, 0, 0, 2, ("skew", "out"), 9, False))
+        # ALL interleavings of the messages of two exchanges (any initiators / peers, with
+        # drops) over "lag" knowledge (a record asked from one node is held newer by a third):
+        # a whole exchange lands between another's sync and ack, or ack and ack2, at one node
+        gen_and_replay(ctx, acc, "msg_n3_2x_lag", gen_cfg(3, 2, 0, 0, 2, ("lag",), 9, False, sends=2, changes=0))
+        # the same with one restart anywhere (newer = new generation, smaller version)
+        gen_and_replay(ctx, acc, "msg_n3_2x_lag_restart",
+                       gen_cfg(3, 2, 1, 0, 2, ("lag",), 10, False, sends=2, nodrop=True, changes=1))
+        gen_and_replay(ctx, acc, "msg_n2_2x_lag_chg1",
+                       gen_cfg(2, 3, 1, 1, 2, ("lag",), 10, False, sends=2, nodrop=True, changes=1))
     else:
         gen_and_replay(ctx, acc, "atomic_n3_d4", gen_cfg(3, 1, 1, 1, 1, ALL_TOPOS, 5, True))
         gen_and_replay(ctx, acc, "atomic_n3_d5", gen_cfg(3, 1, 1, 0, 1, ("hub", "skew"), 6, True), keep=0.5)
@@ -328,6 +339,15 @@ def run(ctx):
         gen_and_replay(ctx, acc, "msg_n3_d6_hub", gen_cfg(3, 1, 0, 0, 2, ("hub",), 7, False), keep=0.5)
         gen_and_replay(ctx, acc, "msg_n2_d9", gen_cfg(2, 1, 0, 0, 2, ("skew", "out"), 10, False), keep=0.5)
         gen_and_replay(ctx, acc, "msg_n3_d8_msgonly", gen_cfg(3, 1, 0, 0, 2, ("skew",), 9, False), keep=0.2)
+        # all interleavings of two exchanges (with drops), of two exchanges plus one change of
+        # any kind, and (sampled) of three exchanges, over "lag" knowledge
+        gen_and_replay(ctx, acc, "msg_n3_2x_lag", gen_cfg(3, 2, 0, 0, 2, ("lag",), 9, False, sends=2, changes=0))
+        gen_and_replay(ctx, acc, "msg_n3_2x_lag_chg1",
+                       gen_cfg(3, 3, 1, 1, 2, ("lag",), 10, False, sends=2, nodrop=True, changes=1))
+        gen_and_replay(ctx, acc, "msg_n2_2x_lag_chg1",
+                       gen_cfg(2, 3, 1, 1, 2, ("lag",), 10, False, sends=2, nodrop=True, changes=1))
+        gen_and_replay(ctx, acc, "msg_n3_3x_lag",
+                       gen_cfg(3, 2, 0, 0, 3, ("lag",), 13, False, sends=3, nodrop=True, changes=0), keep=0.3)
         # deeper / wider by simulation (num is per TLC worker; TLC evaluates Emit on every
         # candidate successor, so each trace yields all its depth-Depth continuations)
         gen_and_replay(ctx, acc, "sim_atomic_n4_d12", gen_cfg(4, 2, 1, 1, 1, ALL_TOPOS, 13, True),
